@@ -281,6 +281,90 @@ def trial_consistency(i, blob):
     return out
 
 
+def aborted_accounting(k1, k2, a, k3, seed=3):
+    """run(k1); run(k2) interrupted by a KeyboardInterrupt raised inside the a-th decode of that call
+    (a >= k2: not interrupted); run(k3).  Returns what is inconsistent in the accounting afterwards."""
+    import panqec.decoders as pd_
+    from panqec.error_models import PauliErrorModel
+    from panqec.simulation import DirectSimulation
+    code = common.make_code('Toric2DCode(2,2)')
+    em = PauliErrorModel(1 / 3, 1 / 3, 1 / 3)
+    inner = pd_.MatchingDecoder(code, em, 0.3)
+    state = dict(armed=False, n=0)
+
+    class Interrupting(pd_.MatchingDecoder):
+        def decode(self, syndrome, **kw):
+            if state['armed']:
+                if state['n'] == a:
+                    state['armed'] = False
+                    raise KeyboardInterrupt()
+                state['n'] += 1
+            return inner.decode(syndrome, **kw)
+    dec = Interrupting(code, em, 0.3)
+    sim = DirectSimulation(code, em, dec, 0.3, rng=np.random.default_rng(seed), verbose=False)
+    sim.run(k1)
+    state.update(armed=True, n=0)
+    try:
+        sim.run(k2)
+    except KeyboardInterrupt:
+        pass
+    state['armed'] = False
+    sim.run(k3)
+    res = sim.results
+    lens = {k_: len(res[k_]) for k_ in ('effective_error', 'success', 'codespace')}
+    out = []
+    if len(set(lens.values())) != 1:
+        out.append(f'list lengths differ: {lens}')
+    n_rec = lens['success']
+    summary = sim.get_results() if n_rec else None
+    if res['n_runs'] != n_rec or sim.n_results != n_rec:
+        out.append(f'n_runs counter {res["n_runs"]} / n_results {sim.n_results}, {n_rec} trials recorded')
+    if summary is not None:
+        n_fail = sum(1 for s_ in res['success'] if not s_)
+        if int(summary['n_runs']) != n_rec or int(summary['n_fail']) != n_fail or \
+                abs(float(summary['p_est']) - n_fail / n_rec) > 1e-12:
+            out.append(f'summary {dict(n_runs=summary["n_runs"], n_fail=summary["n_fail"], p_est=summary["p_est"])} '
+                       f'for {n_rec} recorded trials with {n_fail} failures')
+    want = k1 + min(a, k2) + k3
+    if n_rec != want:
+        out.append(f'{n_rec} trials recorded, {want} completed')
+    return out
+
+
+def w_aborted(cfg, tier):
+    """'aborted': interleavings of run(k) calls one of which is left by a KeyboardInterrupt inside a trial
+    (solver-chosen k1, k2, interrupt position, k3; realised; real classes): lists equally long, counter and
+    summary agree with the recorded trials, p_est = n_fail / n_runs."""
+    from panqec.simulation import DirectSimulation
+    col = hz.Collector(cfg)
+    col.encoded(DirectSimulation._run, DirectSimulation.get_results)
+    kmax = 2 if tier == 'quick' else 3
+    eng = Engine(name=cfg, max_paths=5000)
+    with eng:
+        k1, k2, k3 = eng.integer('k1', 0, kmax), eng.integer('k2', 1, kmax + 1), eng.integer('k3', 0, kmax)
+        a = eng.integer('interrupt_at', 0, kmax + 1)
+        eng.assume_base((a <= k2).t)
+
+        def fn():
+            v = (int(k1), int(k2), int(a), int(k3))
+            return v, aborted_accounting(*v)
+        ps = eng.explore(fn)
+    col.absorb(eng)
+    bad, w = [], [None]
+    for p in ps:
+        if p.exc is not None:
+            bad.append(z3_and(p.pc))
+            w[0] = w[0] or dict(aborted=True, exception=f'{type(p.exc).__name__}: {p.exc}')
+            continue
+        v, out = p.value
+        bad.append(z3_and(p.pc + [z3.BoolVal(bool(out))]))
+        if out and (w[0] is None or 'history' not in w[0]):
+            w[0] = dict(aborted=True, history=list(v), inconsistent=out[:3])
+    col.prove('C11/real/accounting-after-an-interrupted-run', eng.base, z3_or(bad), lambda m: w[0],
+              f'{len(ps)} realised histories run(k1); run(k2) interrupted in trial a; run(k3)')
+    return col.result()
+
+
 def w_real(cfg, tier):
     """cfg = 'real': the real DirectSimulation, real classes and engines.  The solver chooses (realised)
     which simulation runs FIRST in the process and which SECOND (same seed); the second's results must be
@@ -331,6 +415,8 @@ def w_real(cfg, tier):
 
 
 def worker(cfg, tier='quick'):
+    if cfg.startswith('aborted'):
+        return w_aborted(cfg, tier)
     if cfg.startswith('real'):
         return w_real(cfg, tier)
     return {'once': w_once, 'sim': w_sim}[cfg.split()[0]](cfg, tier)
@@ -341,6 +427,17 @@ def replay(path):
     with open(path) as f:
         d = json.load(f)
     w, oid, cfg = d['witness'], d['oid'], d['config']
+    if w.get('aborted'):
+        if 'history' in w:
+            out = aborted_accounting(*w['history'])
+            print('history (k1, k2, interrupt at, k3) =', w['history'], '->', out)
+            bad = bool(out)
+        else:
+            print(w.get('exception'))
+            res = worker(cfg)
+            bad = any(o['oid'] == oid and o['verdict'] == 'sat' for o in res['obs'])
+        print('REPLAY', 'reproduced' if bad else 'not-reproduced', oid, cfg)
+        return 0
     if w.get('real'):
         bad = False
         if 'second' in w:
@@ -443,7 +540,7 @@ def configs(tier):
     if tier != 'quick':
         once = common.code_configs('quick', deformed=True, max_n=60)
     out = [f'once {c}' for c in once]
-    out += ['real']
+    out += ['real', 'aborted']
     out += ['sim RotatedPlanar2DCode(2,2) kmax=2', 'sim Toric2DCode(2,2) kmax=2'] if tier == 'quick' else \
         ['sim RotatedPlanar2DCode(2,2) kmax=3', 'sim Toric2DCode(2,2) kmax=3', 'sim Planar2DCode(2,2)/XY kmax=3']
     return out
